@@ -255,6 +255,9 @@ func runC05(c *core.Ctx) {
 			continue
 		}
 		applyTerm(c, "pipe", "pipe."+ctor, constructedType(fn))
+		if ctor != "Pure" {
+			wrapsArgument(c, "pipe", ctor)
+		}
 	}
 	pureNeverFails(c, "pipe")
 }
